@@ -99,6 +99,15 @@ def judge(case, impl, model):
                 fails.append((f"roundtrip-raises:{site}", f"Deserializer rejects the serialized form: {impl['back'].get('err')}: {impl['back'].get('msg')}; doc " + json.dumps(impl["ser"]["ok"])[:300]))
             elif not impl.get("eq"):
                 fails.append((f"roundtrip-differs:{site}", "deserialize(serialize(x)) != x: x=" + json.dumps(impl["inst"])[:250] + " back=" + json.dumps(impl["back"]["ok"])[:250]))
+            # through JSON text: json.dumps turns the non-string keys of a Map[Integer | Float | Boolean | ..., X] into
+            # strings, which the key field then refuses (or reads as another key)
+            tb = impl.get("text_back")
+            if tb is not None and "ok" in impl.get("back", {}) and impl.get("eq") and tb.get("ok") is not True:
+                nk = sorted(S.nonstring_map_keys(case["cls"]))
+                where = ("map-key:" + nk[0]) if nk else site
+                fails.append((f"text-roundtrip-fails:{where}", "Deserializer(cls).deserialize(json.loads(json.dumps(Serializer(x).serialize()))) "
+                              + (f"raises {tb.get('err')}: {tb.get('msg')}" if "err" in tb else "!= x") + " although the round trip of the Python document succeeds; doc "
+                              + json.dumps(impl["ser"]["ok"])[:250]))
     elif S.lossy_only(case["cls"]):
         if "ok" in impl["ser"] and "ok" in impl.get("back", {}):
             s2 = impl.get("ser2", {})
